@@ -18,7 +18,8 @@ type Point struct {
 	Enabled        int8 // number of enabled threads (canonical order: running first, then ascending ids)
 	RunningEnabled bool // the running thread could have continued
 	Chosen         int8
-	Thread         int8 // id of the thread that was chosen
+	Thread         int8     // id of the thread that was chosen
+	Steps          [4]int32 // yields executed by each thread when the decision was taken
 }
 
 // ChoiceList returns the choices of the first n points.
@@ -41,8 +42,10 @@ type Exec struct {
 	Diverged string   // non-empty: the prefix could not be replayed (infrastructure error)
 	Panics   []string // per thread: recovered panic value ("" if none)
 	StepsPer []int    // yields per thread
-	// Snapshots of the shared state taken by the harness hook at context switches (optional).
+	// Snapshots of the shared state taken by the harness hook at context switches (optional),
+	// and the index of the decision point at which each was taken.
 	SwitchStates []uint64
+	SwitchAt     []int
 }
 
 type thread struct {
@@ -75,8 +78,12 @@ func Active() bool { return st != nil }
 // Horizon is the maximal number of yields per execution.
 var Horizon = 200000
 
-// OnSwitch, if set before Run, is called at every context switch; its result is recorded.
-var OnSwitch func() uint64
+// OnSwitch, if set before Run, is called at every context switch taken at a decision point with
+// index >= OnSwitchFrom; its result is recorded.
+var (
+	OnSwitch     func() uint64
+	OnSwitchFrom int
+)
 
 func (t *thread) isEnabled() bool {
 	return !t.done && (t.blocked == nil || t.blocked())
@@ -117,7 +124,13 @@ func (s *state) decide(running *thread) *thread {
 		}
 	}
 	runEn := running != nil && en[0] == running
-	s.ex.Points = append(s.ex.Points, Point{Enabled: int8(len(en)), RunningEnabled: runEn, Chosen: int8(choice), Thread: int8(en[choice].id)})
+	p := Point{Enabled: int8(len(en)), RunningEnabled: runEn, Chosen: int8(choice), Thread: int8(en[choice].id)}
+	for i, t := range s.threads {
+		if i < len(p.Steps) {
+			p.Steps[i] = int32(t.steps)
+		}
+	}
+	s.ex.Points = append(s.ex.Points, p)
 	return en[choice]
 }
 
@@ -144,8 +157,9 @@ func transfer(from, to *thread) {
 	if from != nil && !from.done {
 		s.ex.Switches++
 	}
-	if s.onSwitch != nil {
+	if s.onSwitch != nil && len(s.ex.Points) > OnSwitchFrom {
 		s.ex.SwitchStates = append(s.ex.SwitchStates, s.onSwitch())
+		s.ex.SwitchAt = append(s.ex.SwitchAt, len(s.ex.Points)-1)
 	}
 	cur = to
 	to.wake <- struct{}{}
